@@ -1517,3 +1517,18 @@ Qed.
 
 Theorem hash_perm size k k' s : Permutation k k' -> hash size k s = hash size k' s.
 Proof. intro HP. unfold hash. now rewrite (hash_raw_perm k k' s HP). Qed.
+
+(* an integer key enters the hash only through its value modulo 2^64: reinterpreting a uint64 above 2^63 as int64
+   (what column.astype(int) does) is harmless *)
+Lemma wrap64_mul_r a b : wrap64 (a * wrap64 b) = wrap64 (a * b).
+Proof.
+  rewrite !wrap64_mod. f_equal.
+  replace (a * ((b + two63) mod two64 - two63) + two63) with (a * ((b + two63) mod two64) + (two63 - a * two63)) by ring.
+  replace (a * b + two63) with (a * (b + two63) + (two63 - a * two63)) by ring.
+  rewrite <- (Z.add_mod_idemp_l (a * ((b + two63) mod two64))) by (unfold two64; lia).
+  rewrite Z.mul_mod_idemp_r by (unfold two64; lia).
+  now rewrite Z.add_mod_idemp_l by (unfold two64; lia).
+Qed.
+
+Theorem conv10_int_mod64 v : conv10 (KInt (wrap64 v)) = conv10 (KInt v).
+Proof. cbn [conv10]. now rewrite wrap64_mul_r. Qed.
